@@ -197,3 +197,12 @@ Lemma run_trace_rest_wf {A} (p : prog A) evs r rest : Forall ev_wf evs -> run_tr
 Proof.
   intros Hwf H. destruct (run_trace_consumed _ _ _ _ H) as (used & -> & _). eapply Forall_app_r; exact Hwf.
 Qed.
+
+(* ---- zero-length reads never disturb the stream ---------------------------------------------- *)
+From LzVerif Require Import Codec.Lzma1 Codec.Lzma2Dec.
+
+Lemma lzma1_read_zero s n : n <= 0 -> lzma1_read s n = Ok ([], s).
+Proof. intros H. unfold lzma1_read. destruct (Z.leb_spec n 0); [reflexivity | lia]. Qed.
+
+Lemma lzma2_read_zero s n : n <= 0 -> lzma2_read s n = Ok ([], s).
+Proof. intros H. unfold lzma2_read. destruct (Z.leb_spec n 0); [reflexivity | lia]. Qed.
